@@ -1574,6 +1574,8 @@ func (eval Evaluator) InnerSum(ctIn *rlwe.Ciphertext, batchSize, n int, opOut *r
 
 	if l == N {
 		if n == 1 {
+			// Copy only writes the terms of ctIn: a receiver of another degree (previous use) is resized first
+			opOut.Resize(ctIn.Degree(), ctIn.Level())
 			opOut.Copy(ctIn)
 			return
 		}
